@@ -97,7 +97,7 @@ func (v *globValidator) validateNext() bool {
 		case '[', '?', '*':
 			c = v.scan.Next() // eat escaped character
 			if v.isRef {
-				v.invalidRefChar(v.scan.Peek(), "ref name cannot contain spaces, ~, ^, :, [, ?, *")
+				v.invalidRefChar(c, "ref name cannot contain spaces, ~, ^, :, [, ?, *")
 			}
 		case '+', '\\', '!':
 			c = v.scan.Next() // eat escaped character
